@@ -41,6 +41,21 @@ Engine T (input-history tree), exact-rational oracle.
      cap) for every configuration of the menu: every qualifying window qualifies through the tie only.
      Next to the gate: the same enumeration (smaller cap) over {0.025(1+1e-7) g, 0.025(1-1e-7) g, 0,
      -0.025(1+1e-7) g} - decided comparisons a relative 1e-7 above / below the gate.
+(vii) Public options of the object that store a non-default variant of a derived series.  The measures take
+     the signal object; the velocity "v" of the velocity based measures (ISV = trapezoid(v^2), rectangle sum
+     of |v|, summed |change of 0.5 v |v||) is the velocity series of that signal - what `asig.velocity` reports
+     when the measure is asked for.  On the float64 object of every word (after all measures were evaluated on
+     it with the default velocity) `generate_displacement_and_velocity_series(trap=False)` is called (C08:
+     rectangle-rule velocity), the reported velocity is read, and all six measures are compared with the exact
+     integrals built on THAT series (acceleration based ones: unchanged); then the default call
+     `generate_displacement_and_velocity_series()` and the same again.  The measures must leave the reported
+     velocity as it is.  The same non-default call is part of the history before every record change in (iii).
+(viii) "has the record's length" for the standardised CAV over a (dt, length) lattice: the time steps 0.01,
+     0.02, 0.05, 0.1, 0.2 (whole number of samples per second, not binary fractions: products and quotients
+     of length and dt round) x every length from the shortest admissible record (2 s) to one sample beyond
+     3 s, and every whole-second length 2 .. 20 s (30 s in the thorough tier) with and without one extra
+     sample, x a menu of simple record contents (every window / no window / every other window / one
+     boundary sample reaches the gate), with all standardised-CAV sub-claims against the exact reference.
 """
 import itertools
 from fractions import Fraction
@@ -117,6 +132,14 @@ NEAR_REL = Fraction(1, 10 ** 7)
 NEAR_LV = (Fraction(5, 2) * (1 + NEAR_REL), Fraction(5, 2) * (1 - NEAR_REL), 0, -Fraction(5, 2) * (1 + NEAR_REL))
 NEAR_LV_FLOAT = tuple(float(v / 100 * im_ref.G) for v in NEAR_LV)
 NEAR_CAP = {'quick': 1024, 'thorough': 16384}
+# (viii) standardised CAV over a (dt, length) lattice.  Non-dyadic steps with a whole number of samples per second
+LONG_DTS = (0.01, 0.02, 0.05, 0.1, 0.2)
+LONG_MAX_SEC = {'quick': 20, 'thorough': 30}
+# record contents (levels in 0.01 g as a function of the sample index i, samples per second pps, n)
+LONG_CONTENTS = ('all-windows', 'no-window', 'odd-windows', 'one-boundary-sample')
+# (vii) steps of the option history on one object: (tag, keyword arguments of generate_displacement_and_velocity_series)
+OPTION_STEPS = (('trap=False', {'trap': False}), ('default', {}))
+VEL_MEASURES = ('isv', 'int_abs_vel', 'unit_kinetic_energy')
 TIE_DISABLED = 'exact-tie family: fl(0.025*9.81)/9.81 != 0.025 on this platform'
 
 
@@ -138,6 +161,19 @@ def cavdp_configs(tier):
                 elif 3 ** n <= cap and (tier != 'quick' or sec == CAVDP_SECS[0]):
                     out.append((dt, sec, extra, n, 3))
     return out
+
+
+def long_configs(tier):
+    """(dt, n): every length from the shortest admissible record (2 s) to one sample beyond 3 s, and every
+    whole-second length up to the bound with and without one extra sample."""
+    out = []
+    for dt in LONG_DTS:
+        pps = int(1 / frac(dt))
+        ns = set(range(2 * pps + 1, 3 * pps + 3))
+        for sec in range(2, LONG_MAX_SEC[tier] + 1):
+            ns.update((sec * pps + 1, sec * pps + 2))
+        out.extend((dt, n) for n in sorted(ns))
+    return sorted(out, key=lambda c: (c[1], -c[0]))
 
 
 def build(tier, seed):
@@ -167,6 +203,9 @@ def build(tier, seed):
             for pre in itertools.product(range(nl), repeat=n - suf):
                 cases.append({'k': 'cavdp-near', 'dt': dt, 'n': n, 'levels': nl, 'pre': list(pre)})
     n_near = sum(nl ** n for _, _, _, n, nl in near_cfgs)
+    long_cfgs = long_configs(tier)
+    for dt, n in long_cfgs:
+        cases.append({'k': 'cavdp-long', 'dt': dt, 'n': n})
     n_dp = sum(nl ** n for _, _, _, n, nl in cfgs)
     reuse_cfgs = [c for c in cfgs if c[4] ** c[3] <= REUSE_CAP[tier]]
     return {
@@ -185,8 +224,14 @@ def build(tier, seed):
                 'call on another object with a record of the same length and end samples (A-B-A); (vi) exact tie '
                 'on the gate: all %d words over {0.025 g exactly, 0.02 g, 0, -0.025 g} for the configurations '
                 'listed under bounds, and all %d words over {0.025(1+1e-7) g, 0.025(1-1e-7) g, 0, -0.025(1+1e-7) g}; '
+                '(vii) on the float64 object of every word of length >= 2, after the measures: '
+                'generate_displacement_and_velocity_series(trap=False), all 6 measures against the exact integrals of '
+                'the velocity the object then reports, the default call, all 6 measures again; (viii) standardised CAV '
+                'on %d (dt, length) pairs: dt in %s x (every length from 2 s to 3 s + 1 sample, every whole-second '
+                'length 2..%d s with and without an extra sample) x contents %s (one pool case per pair); '
                 'non-trivial = record not identically zero'
-                % (L, list(DTS), list(ALPHAS), list(PADS), n_dp, len(reuse_cfgs), REUSE_CAP[tier], n_tie, n_near),
+                % (L, list(DTS), list(ALPHAS), list(PADS), n_dp, len(reuse_cfgs), REUSE_CAP[tier], n_tie, n_near,
+                   len(long_cfgs), list(LONG_DTS), LONG_MAX_SEC[tier], list(LONG_CONTENTS)),
         'bounds': {'alphabet': SIGMA, 'max_len': L, 'dt': DTS, 'alpha': ALPHAS, 'zero_padding': PADS,
                    'cavdp_levels_in_g': [0, 0.02, -0.03, 0.05], 'cavdp_gate_g': 0.025,
                    'cavdp_configs(dt,seconds,extra_sample,n,levels_used)': cfgs, 'cavdp_words': n_dp,
@@ -199,7 +244,11 @@ def build(tier, seed):
                    'cavdp_exact_tie_words': n_tie,
                    'cavdp_near_gate_levels_in_0.01g': [float(v) for v in NEAR_LV],
                    'cavdp_near_gate_configs(dt,seconds,extra_sample,n,levels_used)': near_cfgs,
-                   'cavdp_near_gate_words': n_near},
+                   'cavdp_near_gate_words': n_near,
+                   'cavdp_lattice_dt': LONG_DTS, 'cavdp_lattice_max_seconds': LONG_MAX_SEC[tier],
+                   'cavdp_lattice_pairs': len(long_cfgs), 'cavdp_lattice_contents': LONG_CONTENTS,
+                   'cavdp_lattice_max_length': max(n for _, n in long_cfgs),
+                   'velocity_option_steps': [t for t, _ in OPTION_STEPS]},
         'required_classes': ['quad-mixed-sign-acc', 'quad-velocity-sign-change', 'quad-zero-append', 'quad-scaling',
                              'quad-sign-reversal', 'quad-int-input', 'quad-zero-record',
                              'cavdp-none-qualify', 'cavdp-some-qualify', 'cavdp-all-qualify',
@@ -213,7 +262,12 @@ def build(tier, seed):
                              'quad-reused-object-same-length', 'quad-reused-object-after-stat-generators',
                              'cavdp-result-overwritten', 'cavdp-reused-object-after-stat-generators',
                              'cavdp-reused-object-list-record', 'cavdp-near-gate-qualifies',
-                             'cavdp-near-gate-just-below-skipped', 'cavdp-near-gate-none']
+                             'cavdp-near-gate-just-below-skipped', 'cavdp-near-gate-none',
+                             'quad-velocity-option-rectangle', 'quad-velocity-option-changes-isv',
+                             'quad-velocity-option-back-to-default', 'cavdp-lattice-shortest-record',
+                             'cavdp-lattice-whole-seconds', 'cavdp-lattice-extra-samples',
+                             'cavdp-lattice-1000-samples-or-more', 'cavdp-lattice-some-qualify',
+                             'cavdp-lattice-none-qualify', 'cavdp-lattice-all-qualify']
                             + (['cavdp-exact-tie-qualifies', 'cavdp-exact-tie-some-qualify',
                                 'cavdp-exact-tie-end-sample-decides', 'cavdp-exact-tie-none'] if TIE_OK else []),
         'assumptions': [
@@ -236,6 +290,16 @@ def build(tier, seed):
             'narrow / unsigned integer records are examined with the alphabet values and with the alphabet multiplied up to the top of the '
             'type (int8 x50, int16 x15000, int32 x5e8, uint8 x100, uint16 x30000; dt = %s): a**2 and the pairwise sums of the trapezoid '
             'rule used to be evaluated in the record dtype and wrap around (repaired in /repo, see known_findings.txt)' % DTS[1],
+            'the velocity of the velocity based measures (ISV, int|v|, unit kinetic energy) is the velocity series of the '
+            'signal handed to the measure, i.e. what asig.velocity reports at that moment: the trapezoid integral of the '
+            'record by default (C08; exact reference from the record), the rectangle-rule series after the public call '
+            'generate_displacement_and_velocity_series(trap=False) (reference: the exact integrals of the series the '
+            'object reports; whether that series is the right rectangle-rule velocity is C08).  The statement does not '
+            'say this in so many words ("ISV = trapezoid(v^2)"); the reading that v is always the default velocity is '
+            'not adopted (it would make the measures ignore the velocity of the object they are given)',
+            'standardised CAV lattice: dt in %s are not binary fractions; the number of samples per second is the '
+            'integer 1/dt of the decimal literal, the record has the stated number of samples, windows as above'
+            % (list(LONG_DTS),),
             'the stat generators / lazy properties called between the steps of a history are not themselves '
             'checked here (exceptions they raise are ignored); only the measures that follow are',
             'zero padding is checked for the acceleration based quadrature measures only (Arias, CAV, int|a|)',
@@ -280,6 +344,11 @@ def _touch(sig):
             getattr(sig, nm)
         except Exception:   # noqa
             pass
+    try:
+        # a public option that leaves a NON-default variant of a derived series stored on the object
+        sig.generate_displacement_and_velocity_series(trap=False)
+    except Exception:   # noqa
+        pass
 
 
 def _other_record(v):
@@ -361,6 +430,76 @@ def _scribble(out):
     except Exception:   # noqa
         pass
     return False
+
+
+def _velocity_refs(v, h):
+    """Exact running series of the three velocity based measures for the velocity samples v (Fractions)."""
+    out = {'isv': im_ref.trap_running([x * x for x in v], h),
+           'int_abs_vel': im_ref.rect_running([abs(x) for x in v], h)}
+    uke = []
+    s = Fraction(0)
+    prev = Fraction(0)          # the first change is counted from rest
+    for x in v:
+        k = x * abs(x) / 2
+        s += abs(k - prev)
+        prev = k
+        uke.append(s)
+    out['unit_kinetic_energy'] = uke
+    return out
+
+
+def _option_history(r, w, dt, h, reff, sig, vel_default):
+    """(vii): on an object on which the measures were already evaluated, switch the public integration option of
+    the velocity series and evaluate all measures against the exact integrals of the velocity the object then
+    reports; switch back with the default call and do the same."""
+    n = len(w)
+    hist = []
+    for tag, kw in OPTION_STEPS:
+        hist = hist + [tag]
+        sub0 = {'w': w, 'dt': dt, 'history': ['measures'] + hist}
+        r.states += 1
+        r.transitions += 1
+        ok, _ = r.call('option.generate_displacement_and_velocity_series', sub0,
+                       sig.generate_displacement_and_velocity_series, **kw)
+        if not ok:
+            return
+        try:
+            v_rep = np.array(sig.velocity, dtype=float, copy=True)
+        except Exception:   # noqa
+            v_rep = None
+        if v_rep is None or v_rep.shape != (n,) or not np.all(np.isfinite(v_rep)):
+            r.disabled['option history: the object reports no velocity series of the record length (C08)'] += 1
+            return
+        refs = _velocity_refs([Fraction(float(x)) for x in v_rep], h)
+        vpk = max(float(np.max(np.abs(vel_default))), float(np.max(np.abs(v_rep))))
+        differs = bool(np.max(np.abs(v_rep - vel_default)) > 1e-6 * vpk) if vpk > 0 else False
+        if kw.get('trap') is False and differs:
+            r.cls('quad-velocity-option-rectangle')
+        if not kw and not differs:
+            r.cls('quad-velocity-option-back-to-default')
+        for name, deg, accb in MEASURES:
+            sub = dict(sub0, measure=name)
+            ok, out = r.call('option.' + name, sub, FUNCS[name], sig)
+            if not ok:
+                continue
+            arr = _series_ok(r, name, sub, out, n, 'option.length.')
+            if arr is None:
+                continue
+            want = reff[name] if accb else np.array([float(x) for x in refs[name]])
+            peak = float(np.max(np.abs(want)))
+            if name == 'isv' and abs(want[-1] - reff[name][-1]) > 1e-6 * max(peak, float(reff[name][-1])):
+                r.cls('quad-velocity-option-changes-isv')
+            r.expect_close('option.' + name, sub, arr, want, rtol=RTOL, scale=peak,
+                           what='series is not the integral built on the velocity the object reports'
+                           if not accb else '')
+            r.expect_close('option.final.' + name, sub, arr[-1], want[-1], rtol=RTOL, scale=peak)
+            _monotone(r, 'option.monotone.' + name, sub, arr, peak)
+        try:
+            same = bool(np.array_equal(np.asarray(sig.velocity, dtype=float), v_rep))
+        except Exception:   # noqa
+            same = False
+        r.expect('option.velocity-unchanged', sub0, same, 'the measures changed the velocity series of the object',
+                 expected=v_rep)
 
 
 def run_quad(w):
@@ -450,6 +589,9 @@ def run_quad(w):
                 if ok:
                     r.expect_close('repeat.' + name, sub, out, base[name], rtol=REL_RTOL,
                                    what='second call on the same object differs from the first result')
+        # public option of the object: a non-default variant of the velocity series is stored, then the measures
+        if sig_f is not None and n >= 2:
+            _option_history(r, w, dt, h, reff, sig_f, np.array([float(x) for x in vel]))
         # operation history on ONE object (tree edge parent -> word and back): the series are those of
         # the object's current record, whatever it held and whatever was computed on it before
         if n >= 3:
@@ -705,9 +847,83 @@ def run_cavdp_tie(case):
     return r
 
 
+def _long_levels(content, n, pps):
+    """Record contents of the (dt, length) lattice, in units of 0.01 g over the alphabet {0, 2, -3, 5}."""
+    nwin = (n - 1) // pps
+    if content == 'all-windows':
+        return [LV100[i % 4] for i in range(n)]                 # 0.05 g every fourth sample (pps >= 5)
+    lv = [2 if i % 2 == 0 else 0 for i in range(n)]             # 0.02 g: below the gate
+    if content == 'no-window':
+        if (n - 1) % pps:
+            lv[-1] = 5           # above the gate, but after the last whole second: in no window
+    elif content == 'odd-windows':
+        for i in range(1, nwin, 2):
+            lv[i * pps + pps // 2] = 5                          # strictly inside window i
+    elif content == 'one-boundary-sample':
+        lv[2 * pps] = -3         # end sample of window 1 and (if there is one) first sample of window 2
+    return lv
+
+
+def run_cavdp_long(case):
+    """(viii): one (dt, length) pair of the lattice x every record content, on a fresh object and on one object that
+    held a record one second longer before (and is handed the contents one after the other: same length)."""
+    r = Res()
+    dt = case['dt']
+    n = case['n']
+    h = frac(dt)
+    pps = int(1 / h)
+    if n == 2 * pps + 1:
+        r.cls('cavdp-lattice-shortest-record')
+    r.cls('cavdp-lattice-extra-samples' if (n - 1) % pps else 'cavdp-lattice-whole-seconds')
+    if n >= 1000:
+        r.cls('cavdp-lattice-1000-samples-or-more')
+    reused = None
+    lv_long = _long_levels('all-windows', n + pps, pps)
+    ok, sg = r.call('construct', {'dt': dt, 'n': n + pps, 'content': 'all-windows'}, eqsig.AccSignal,
+                    np.array([LV_OF[v] for v in lv_long]), dt)
+    if ok:
+        try:
+            r.evals += 1
+            im.calc_cav_dp(sg)          # the longer record is checked in its own pool case (or is beyond the bound)
+            reused = sg
+        except Exception:   # noqa
+            reused = sg
+    prev = 'all-windows, n=%d' % (n + pps)
+    for content in LONG_CONTENTS:
+        lv = _long_levels(content, n, pps)
+        rf = im_ref.cav_dp_reference(lv, pps, h)
+        r.states += 1
+        r.nontrivial += 1
+        r.cls('cavdp-lattice-none-qualify' if rf['nq'] == 0 else
+              'cavdp-lattice-all-qualify' if rf['nq'] == rf['nwin'] else 'cavdp-lattice-some-qualify')
+        acc = np.array([LV_OF[v] for v in lv])
+        sub = {'dt': dt, 'n': n, 'content': content}
+
+        def go():
+            return im.calc_cav_dp(eqsig.AccSignal(acc.copy(), dt))
+        ok, out = r.call('cavdp', sub, go)
+        if ok:
+            _check_cavdp(r, '', sub, out, n, rf)
+        if reused is not None:
+            sub = dict(sub, previous_record=prev)
+            r.states += 1
+            r.transitions += 1
+            ok, _ = r.call('reuse.reset_values', sub, reused.reset_values, acc.copy())
+            if not ok:
+                reused = None
+                continue
+            prev = '%s, n=%d' % (content, n)
+            ok, out = r.call('reuse.cavdp', sub, im.calc_cav_dp, reused)
+            if ok:
+                _check_cavdp(r, 'reuse.', sub, out, n, rf)
+    return r
+
+
 def run_case(case):
     if case['k'] == 'quad':
         return run_quad(case['w'])
+    if case['k'] == 'cavdp-long':
+        return run_cavdp_long(case)
     if case['k'] in ('cavdp-tie', 'cavdp-near'):
         return run_cavdp_tie(case)
     return run_cavdp(case)
@@ -724,7 +940,11 @@ def snippet(case, v):
                 "s = eqsig.AccSignal(a, sub['dt'])\n"
                 "fs = (im.calc_arias_intensity, im.calc_cav, im.calc_isv, im.calc_integral_of_abs_acceleration,\n"
                 "      im.calc_integral_of_abs_velocity, im.calc_unit_kinetic_energy)\n"
-                "if 'history' in sub:   # one object: other -> parent -> w -> parent (list of ints)\n"
+                "if sub.get('history', [''])[0] == 'measures':   # measures, then the public velocity option(s), then the measures\n"
+                "    [f(s) for f in fs]\n"
+                "    for step in sub['history'][1:]: s.generate_displacement_and_velocity_series(**({'trap': False} if step == 'trap=False' else {}))\n"
+                "    v = s.velocity; print('velocity reported', v, 'trapezoid(v^2)', np.sum((v[1:] ** 2 + v[:-1] ** 2) / 2) * sub['dt'])\n"
+                "elif 'history' in sub:   # one object: other -> parent -> w -> parent (list of ints)\n"
                 "    par = sub['w'][:-1]\n"
                 "    s = eqsig.AccSignal(np.array([3 * x + 1 for x in reversed(par)], float), sub['dt'])\n"
                 "    for rec in [np.array(par, float), np.array(sub['w'], float), list(par)][:len(sub['history']) - 1]:\n"
@@ -739,6 +959,27 @@ def snippet(case, v):
                 "for f in (im.calc_arias_intensity, im.calc_cav, im.calc_isv, im.calc_integral_of_abs_acceleration,\n"
                 "          im.calc_integral_of_abs_velocity, im.calc_unit_kinetic_energy):\n"
                 "    print(f.__name__, f(s))\n" % (sub,))
+    if case.get('k') == 'cavdp-long':
+        return ("import numpy as np, eqsig\nfrom eqsig import im\n"
+                "sub = %r\n"
+                "def levels(content, n, pps):   # units of 0.01 g\n"
+                "    if content.startswith('all-windows'): return [(0, 2, -3, 5)[i %% 4] for i in range(n)]\n"
+                "    lv = [2 if i %% 2 == 0 else 0 for i in range(n)]\n"
+                "    if content == 'no-window' and (n - 1) %% pps: lv[-1] = 5\n"
+                "    if content == 'odd-windows':\n"
+                "        for i in range(1, (n - 1) // pps, 2): lv[i * pps + pps // 2] = 5\n"
+                "    if content == 'one-boundary-sample': lv[2 * pps] = -3\n"
+                "    return lv\n"
+                "pps = int(round(1 / sub['dt']))\n"
+                "a = np.array(levels(sub['content'], sub['n'], pps), float) * 0.01 * 9.81\n"
+                "s = eqsig.AccSignal(a, sub['dt'])\n"
+                "if 'previous_record' in sub:   # the object held another record before\n"
+                "    c, m = sub['previous_record'].split(', n=')\n"
+                "    s = eqsig.AccSignal(np.array(levels(c, int(m), pps), float) * 0.01 * 9.81, sub['dt'])\n"
+                "    im.calc_cav_dp(s); s.reset_values(a)\n"
+                "o = im.calc_cav_dp(s)\n"
+                "print('record length', len(a), 'series length', len(o), 'final', o[-1], 'cav/9.81', im.calc_cav(s)[-1] / 9.81)\n"
+                % (sub,))
     return ("import numpy as np, eqsig\nfrom eqsig import im\n"
             "sub = %r\n"
             "a = np.array(sub['levels_in_0.01g'], float) * 0.01 * 9.81\n"
